@@ -34,7 +34,7 @@ Proof.
     split; [reflexivity|]. exists []. split; [constructor|]. split; [apply incl_refl|]. split; [apply frame_refl|reflexivity].
   - pose proof R as R0. tnode R a c Fl Fr Ea Ha Hl Hr Nl Nr Hd. subst n. cbn [go_pnil depth] in *.
     rewrite (hget_some h a c Ha). cbn [bind]. unfold rem_lt, rem_gt.
-    destruct (cmp key (G.node_X c) <? 0).
+    case_if.
     { (* n.left, ok = n.left.remove(key, compare) *)
       eapply rel_bind; [apply (IHl h (G.node_left c) Fl key fuel Hl); lia|].
       intros [l' ok] [[t3 t4] h1] [-> [Fl' [Rl' [I' [Fr' L']]]]].
@@ -52,7 +52,7 @@ Proof.
         rewrite nth_upd_other by (intros ->; apply Nk; left; reflexivity).
         apply Eo; [exact Hk|]. intros X. apply Nk. inl. tauto.
       - rewrite upd_length. exact L'. }
-    destruct (cmp key (G.node_X c) >? 0).
+    case_if.
     { (* n.right, ok = n.right.remove(key, compare) *)
       eapply rel_bind; [apply (IHr h (G.node_right c) Fr key fuel Hr); lia|].
       intros [r' ok] [[t7 t8] h1] [-> [Fr1 [Rr' [I' [Fr' L']]]]].
